@@ -741,7 +741,24 @@ def m_strings_trimspace(ex, args, guard, pos):
     s = args[0]
     if s.is_conc():
         return StrV.const(s.conc().strip(b" \t\n\r\x0b\x0c")), guard
-    raise Unsupported("TrimSpace of symbolic string")
+    # symbolic contents/length: ASCII white space only (bytes >= 0x80, i.e. U+0085/U+00A0/... are treated as non-space)
+    ex.assume_desc.append("strings.TrimSpace of a symbolic string trims ASCII white space only")
+    n = len(s.chars)
+
+    def nonsp(i):
+        c = s.chars[i]
+        if isinstance(c, int):
+            sp = c == 32 or 9 <= c <= 13
+            return b_and(int_cmp("<", i, s.len, 64, True), not sp)
+        sp = z3.Or(c == 32, z3.And(z3.UGE(c, 9), z3.ULE(c, 13)))
+        return b_and(int_cmp("<", i, s.len, 64, True), b_not(sp))
+    lo = s.len
+    for i in reversed(range(n)):
+        lo = i_ite(nonsp(i), i, lo, 64)
+    hi = lo
+    for i in range(n):
+        hi = i_ite(nonsp(i), i + 1, hi, 64)
+    return _substr(ex, s, lo, hi), guard
 
 
 def m_strings_tolower(ex, args, guard, pos):
@@ -753,6 +770,19 @@ def m_strings_tolower(ex, args, guard, pos):
         else:
             out.append(z3.If(z3.And(z3.UGE(c, 65), z3.ULE(c, 90)), c + 32, c))
     return StrV(out, s.len), guard
+
+
+def m_net_joinhostport(ex, args, guard, pos):
+    """net.JoinHostPort(host, port): "[host]:port" when host contains ':' or '%' (IPv6 literal), else "host:port" """
+    host, port = args
+    plain = ex.str_concat(ex.str_concat(host, StrV.const(b":")), port)
+    needs = b_or(int_cmp(">=", _index_byte(ex, host, ord(":")), 0, 64, True), int_cmp(">=", _index_byte(ex, host, ord("%")), 0, 64, True))
+    if needs is False:
+        return plain, guard
+    br = ex.str_concat(ex.str_concat(ex.str_concat(StrV.const(b"["), host), StrV.const(b"]:")), port)
+    if needs is True:
+        return br, guard
+    return ex.ite(needs, br, plain, "string"), guard
 
 
 def m_strconv_itoa(ex, args, guard, pos):
@@ -1123,7 +1153,10 @@ def install(ex):
     M["strings.Cut"] = m_strings_cut
     M["strings.TrimSpace"] = m_strings_trimspace
     M["strings.ToLower"] = m_strings_tolower
+    M["strings.Clone"] = m_identity0  # strings are values here: a copy is the same value
+    M["internal/stringslite.Clone"] = m_identity0
     M["strconv.Itoa"] = m_strconv_itoa
+    M["net.JoinHostPort"] = m_net_joinhostport
     M["strconv.AppendInt"] = m_append_int
     M["strconv.FormatInt"] = m_format_int
     if "strings.Builder" in ex.prog.types:
